@@ -1699,3 +1699,35 @@ async fn d41_repair_after_a_crashed_repair_reuses_the_leftover_temp_segment() {
 	assert!(got[0] && got[1], "D41: records lying wholly before the damage are lost by the repair: {got:?}");
 	assert!(!got[2] && !got[3], "precondition: the damaged record and what follows are cut off");
 }
+
+// D42: Tree::new fails AFTER Core::new succeeded (the final directory fsync returns an error): the `Core` value is just
+// dropped, the background tasks keep Arc<CoreInner> alive and the directory lock is never released
+#[tokio::test(flavor = "multi_thread")]
+async fn d42_open_that_fails_in_the_final_directory_sync_leaks_the_lock() {
+	let d = td();
+	let opts = mk_opts(d.path().to_path_buf(), |o| o.flush_on_close = false);
+	// a table directory whose fsync fails (EINVAL on sysfs) although it can be listed
+	std::fs::create_dir_all(d.path()).unwrap();
+	let sst = opts.sstable_dir();
+	std::os::unix::fs::symlink("/sys/kernel", &sst).unwrap();
+	let r1 = Tree::new(Arc::clone(&opts));
+	let e = match r1 {
+		Ok(_) => panic!("precondition: the open fails in the directory sync"),
+		Err(e) => e.to_string(),
+	};
+	assert!(e.contains("Failed to sync SSTable directory"), "precondition: the open fails in the FINAL directory sync, got: {e}");
+	// the cause goes away; no store is open on the directory
+	std::fs::remove_file(&sst).unwrap();
+	let mut last = String::new();
+	for _ in 0..50 {
+		match Tree::new(Arc::clone(&opts)) {
+			Ok(t) => {
+				t.close().await.unwrap();
+				return;
+			}
+			Err(e) => last = e.to_string(),
+		}
+		tokio::time::sleep(std::time::Duration::from_millis(100)).await;
+	}
+	panic!("D42: directory still locked 5 s after a FAILED open: {last}");
+}
